@@ -1000,8 +1000,8 @@ def check_C03(ctx):
     def corrupt(recs, rnd):
         n = 0
         for r in recs:
-            if r.get("ev") == "Built":
-                tx = r["tx"]
+            txs = [r["tx"]] if r.get("ev") == "Built" else [t["tx"] for t in r.get("txs", [])] if r.get("ev") == "Batch" else []
+            for tx in txs:
                 for i in range(len(tx) - 3):
                     if tx[i] == 0xd9 and tx[i + 1] == 1 and tx[i + 2] == 2:       # first set tag 258 -> 259
                         tx[i + 2] = 3
